@@ -172,6 +172,11 @@ func (vc *FuncVC) genOnce() {
 		}
 		env.resultNames = rn
 		for i, en := range spec.Ensures {
+			if strings.HasPrefix(en.Name, "assume:") {
+				// assumed at call sites, not proved here: listed in the evidence
+				vc.assumed[vc.key+" ensures["+en.Name+"]"] = true
+				continue
+			}
 			tv, err := env.tr(en.Expr)
 			if err != nil {
 				vc.errorf("%s:%d: %v", en.File, en.Line, err)
